@@ -159,3 +159,24 @@ def require_coverage(res, actions, what=""):
   if missing:
     raise TLCError("vacuous model run %s: actions never taken: %s" %
                    (what, missing))
+
+
+def run_many(jobs, parallel=6):
+  """Run several independent TLC invocations concurrently.  jobs: list of dicts of run() keyword
+  arguments (plus positional spec_dir, module, cfg).  Returns results in order; the first failure
+  is re-raised after all have finished."""
+  import concurrent.futures
+  out = [None] * len(jobs)
+  errs = []
+
+  def one(i):
+    j = dict(jobs[i])
+    try:
+      out[i] = run(j.pop("spec_dir"), j.pop("module"), j.pop("cfg"), **j)
+    except Exception as e:      # noqa
+      errs.append(e)
+  with concurrent.futures.ThreadPoolExecutor(parallel) as ex:
+    list(ex.map(one, range(len(jobs))))
+  if errs:
+    raise errs[0]
+  return out
